@@ -1115,6 +1115,20 @@ func RuleJSONStructs(r *Report, p *Program) {
 			w, rd := map[string]bool{}, map[string]bool{}
 			collectCallConsts(mj, "fmt.Sprintf", 0, w, 0, p)
 			collectCallConsts(uj, "fmt.Sscanf", 1, rd, 0, p)
+			if len(w) == 0 {
+				// hex.EncodeToString of the value's bytes, most significant first, is the same text as %0Nx (2N digits)
+				tpk := p.SSAPkg("types")
+				for _, pa := range walkSimple(p, mj, []string{"v"}, func(f *ssa.Function, d int) bool { return pkgOf(f) == tpk && f != mj }) {
+					for _, e := range pa.Events {
+						if e.Kind == "call" && e.Name == "hex.EncodeToString" && len(e.Args) == 1 && e.Args[0].Op == "sref" {
+							els := srefElems(e.Args[0])
+							if ord, src := encodedOrder(els); ord == "be" && strings.HasPrefix(src, "v") {
+								w[fmt.Sprintf("%%0%dx", 2*len(els))] = true
+							}
+						}
+					}
+				}
+			}
 			r.Check(len(w) == 1 && keysOf(w) == keysOf(rd), "J7", "types.Version", p.Pos(uj.Pos()), keysOf(w), "version is written with {"+keysOf(w)+"} and read with {"+keysOf(rd)+"}")
 		}
 	}
